@@ -193,15 +193,16 @@ def applyOp (db : List Coll) : Op → List Coll
 
 def applyOps (db : List Coll) (ops : List Op) : List Coll := ops.foldl applyOp db
 
-/-- Tables seen by requests 0,1,2,…: `sched k` is applied just before request `k`. -/
-def tables (db : List Coll) : List (List Op) → List (List Coll)
-  | [] => []
-  | ops :: rest => let db' := applyOps db ops; db' :: tables db' rest
+/-- Table seen by request `k` under a finite schedule: `sched[k]` is applied just before request `k`
+is served; after the schedule the table no longer changes. -/
+def envOf (db : List Coll) : List (List Op) → Nat → List Coll
+  | [], _ => db
+  | ops :: _, 0 => applyOps db ops
+  | ops :: rest, k + 1 => envOf (applyOps db ops) rest k
 
-/-- `env` function of a finite schedule: after the schedule the table no longer changes. -/
-def envOf (db0 : List Coll) (sched : List (List Op)) : Nat → List Coll :=
-  let ts := tables db0 sched
-  let final := ts.getLast?.getD db0
-  fun k => (ts[k]?).getD final
+/-- largest table of a schedule (for the driver's fuel) -/
+def maxRows (db : List Coll) : List (List Op) → Nat
+  | [] => db.length
+  | ops :: rest => max db.length (maxRows (applyOps db ops) rest)
 
 end ArvVerif.C06
